@@ -21,7 +21,7 @@ COMPONENTS = dict(real=["hio.core.tcp.serving.Server/ServerTls/Remoter/RemoterTl
                   stub=["kernel sockets with open/closed accounting (FakeSocket)"])
 ASSUMPTIONS = ["a socket counts as released when close() was called on it (the fake kernel's descriptor table)"]
 PROBES = ["server_close_with_pending_handshake", "server_close_after_replacement", "server_close_with_established", "client_reopen_while_connected",
-          "same_address_replacement", "server_reopen", "tls_established_replaced_after_handshake", "server_reopen_bind_failed"]
+          "same_address_replacement", "server_reopen", "tls_established_replaced_after_handshake", "server_reopen_bind_failed", "reconnectable_client"]
 BOUNDS = dict(quick=dict(ops=40, clients=3), thorough=dict(ops=120, clients=3))
 TIERS = dict(quick=dict(cases=30000, wall=60.0), thorough=dict(cases=1500000, wall=420.0))
 SIM_TIME_UNIT = "net steps"
@@ -34,17 +34,23 @@ def run_case(tape, tier):
     maxops = 40 if tier == "quick" else 120
     nops = 6 + tape.draw("nops", maxops - 5)
     hist = []
+    tyme = [0.0]
     with netlab.Lab(tape, res, tls=tls, bs=8096, rates=dict(inprogress=tape.pick("r_inprog", [0, 4])), wirelog=False,
-                    ports=(50001, 50002)) as lab:
+                    ports=(50001, 50002), tymth=lambda: tyme[0]) as lab:
         net = lab.net
         lab.make_server()
         for _ in range(ncl):
-            lab.make_client()
+            if tape.flag("reconnectable_client", 1, 3):
+                # retries by itself when its (virtual time) retry tymer expires while the connect or handshake is pending
+                lab.make_client(reconnectable=True, tymeout=0.5)
+                res.probes["reconnectable_client"] += 1
+            else:
+                lab.make_client()
         replaced = [0]
         server_open = True
         nontriv = False
         W = [("svc_client", 6), ("svc_server", 6), ("net", 4), ("client_reopen", 2), ("client_close", 2),
-             ("server_close", 1), ("server_reopen", 2), ("client_tx", 1), ("rounds", 3), ("server_reopen_bind_fails", 1)]
+             ("server_close", 1), ("server_reopen", 2), ("client_tx", 1), ("rounds", 3), ("server_reopen_bind_fails", 1), ("tyme_passes", 2)]
         names = [w[0] for w in W]
         weights = [w[1] for w in W]
 
@@ -116,6 +122,11 @@ def run_case(tape, tier):
                     lab.svc_client(i)
                 except OSError:
                     pass   # C10's business; this check only counts sockets
+                o = open_of("client%d" % i)
+                res.comparisons += 1
+                if len(o) > 1:
+                    res.violate("client-socket-leak", "after client %d service() (auto-reconnect) it has %d open sockets %s" % (i, len(o), o))
+                    break
             elif op == "svc_server":
                 if server_open:
                     try:
@@ -130,6 +141,8 @@ def run_case(tape, tier):
                         res.probes["same_address_replacement"] += 1
             elif op == "net":
                 net.step()
+            elif op == "tyme_passes":
+                tyme[0] += 0.3 * (1 + i)
             elif op == "rounds":
                 # a few full service rounds so that connects and TLS handshakes run to completion
                 for _r in range(2 + i * 2):
